@@ -251,13 +251,17 @@ def main():
         return [Ptr(symbolic_obj(it, "ubi", "sharedro"), 0), Ptr(symbolic_obj(it, "gv", "sharedro"), 0), z3.Real("tol"),
                 Ptr(symbolic_obj(it, "drlv2"), 0), Ptr(symbolic_obj(it, "labels"), 0), z3.Int("label"), ng]
     symcore.RNE_MODE[0] = "fresh"; llsym.MULMODE[0] = "uf"     # the footprint only depends on addresses: products are abstracted
-    try: npaths, nq, conflicts, shared = llsym.footprint(modo, "score_and_assign", setup)
+    try: npaths, nq, conflicts, shared = llsym.footprint(modo, "score_and_assign", setup, iter_steps=1500)      # one iteration of the unchanged loop is ~300 instructions
     finally: symcore.RNE_MODE[0] = "toint"; llsym.MULMODE[0] = "nra"
     ck.path("footprint", n=npaths)
     ck.extra["footprint"] = dict(path_pairs=npaths, alias_queries=nq, conflicts=len(conflicts), shared_accesses_per_iteration=[str(x) for x in shared][:30])
     if npaths == 0: ck.vacuity_fail("footprint: parallel region of score_and_assign not reached")
     else: ck.vacuity_ok("footprint: %d path pairs of two iterations" % npaths)
-    if not conflicts:
+    trunc = getattr(llsym.footprint, "truncated", 0)
+    if trunc: ck.notes.append("footprint: %d path pairs had an abstract iteration cut at its instruction budget (inner loop with a symbolic trip count): only the accesses seen before the cut were compared" % trunc)
+    if not conflicts and trunc:
+        ck.undecided("footprint: iterations kA != kB of the parallel loop touch disjoint memory", "an abstract iteration did not finish within its instruction budget on %d of %d path pairs and no conflict was seen in the explored part" % (trunc, npaths))
+    elif not conflicts:
         ck.ok("footprint: iterations kA != kB of the parallel loop touch disjoint memory (=> any schedule equals the sequential result)", "%d alias queries unsat" % nq)
     else:
         # replay: run the real OpenMP build with many threads against 1 thread
